@@ -308,15 +308,15 @@ void ber_collect_hints(const asn_TYPE_descriptor_t *td, void *st, BerHints &h) {
 void xer_strip_trailing_ws(Bytes &b) {
     while(!b.empty() && (b.back() == ' ' || b.back() == '\n' || b.back() == '\r' || b.back() == '\t')) b.pop_back();
 }
-void xer_variant(const Bytes &x, Rng &rng, Bytes &out, XerVariantStats &vs) {
+void xer_variant(const Bytes &x, Rng &rng, Bytes &out, XerVariantStats &vs, bool favour_prolog) {
     // type-agnostic rewriting of the markup around the values; what the decoder rejects is dropped by the callers' precondition
     out.clear();
     unsigned p_ws = (unsigned)rng.below(10), p_cm = (unsigned)rng.below(5), p_et = (unsigned)rng.below(8), p_cr = (unsigned)rng.below(6);
     size_t n = x.size();
     bool in_text = false;        // between a '>' and the next '<'
     // a prolog in front of the outermost tag: whitespace, a comment, a comment that holds commented-out markup of this very document
-    if(rng.below(16) < p_cm + 1) {
-        switch(rng.below(4)) {
+    if(rng.below(16) < p_cm + 1 || (favour_prolog && rng.chance(1, 2))) {
+        switch(rng.below(favour_prolog ? 6 : 4)) {
         case 0: { static const char w[] = "\n  "; out.insert(out.end(), w, w + 3); vs.whitespace++; break; }
         case 1: { static const char w[] = "<!-- draft -->\n"; out.insert(out.end(), w, w + sizeof w - 1); vs.comments++; break; }
         case 2: { static const char w[] = "<?xml version=\"1.0\"?>"; out.insert(out.end(), w, w + sizeof w - 1); vs.comments++; break; }
